@@ -175,16 +175,21 @@ def search_two_grids(chk, r, n, thorough):
         Q2 = float(r.choice([10.0, 90.0]))
         pts = [dict(x=x, Q2=Q2) for x in xs]
         kw = dict(prDIS=proc, ProjectileDIS="neutrino" if proc == "CC" else "electron", interpolation_is_log=log)
+        # a grid is a set of nodes: the card may list them in any order (downwards, refinement points
+        # appended at the end); the prediction is contracted on the grid the output records
+        listedB = list(gB)
+        if i == 0 or r.random() < 0.4:
+            listedB = list(reversed(gB)) if i % 2 == 0 else gB[::2] + gB[1::2]
         try:
             oA = yadism.run_yadism(t, cards.obs({name: pts}, interpolation_xgrid=gA, interpolation_polynomial_degree=dA, **kw))
-            oB = yadism.run_yadism(t, cards.obs({name: pts}, interpolation_xgrid=gB, interpolation_polynomial_degree=dB, **kw))
+            oB = yadism.run_yadism(t, cards.obs({name: pts}, interpolation_xgrid=listedB, interpolation_polynomial_degree=dB, **kw))
         except Exception as e:  # noqa
             chk.search_case("two_grids_agree_in_span", False, what=f"{name} PTO={pto}: {type(e).__name__}: {e}"[:200], data=dict(gridA=gA, gridB=gB))
             continue
         for j, x in enumerate(xs):
             a, b = predict(oA[name][j], oA, pdf), predict(oB[name][j], oB, pdf)
             rel = abs(a - b) / max(predict_scale(oA[name][j], oA, pdf), 1e-300)
-            d = dict(obs=name, process=proc, PTO=pto, x=x, Q2=Q2, log=log, degreeA=dA, degreeB=dB, NA=NA, NB=len(gB), predictionA=a, predictionB=b, rel=rel, where=["generic", "nodeA", "near-nodeA", "near-nodeB", "top", "bottom"][j], gridA=gA, gridB=gB)
+            d = dict(obs=name, process=proc, PTO=pto, x=x, Q2=Q2, log=log, degreeA=dA, degreeB=dB, NA=NA, NB=len(gB), predictionA=a, predictionB=b, rel=rel, where=["generic", "nodeA", "near-nodeA", "near-nodeB", "top", "bottom"][j], gridB_listed_ascending=listedB == gB, gridA=gA, gridB=listedB)
             chk.search_case("two_grids_agree_in_span", rel <= 2e-7, what=f"{name} {proc} PTO={pto} x={x!r} ({d['where']}) log={log} degrees {dA}/{dB} N {NA}/{len(gB)}: predictions for a PDF in the common span differ by {rel:.2e} ({a} vs {b})", data=d, sample={k: v for k, v in d.items() if not k.startswith("grid")} if j == 2 else None, nontrivial=abs(a) > 0)
 
 
